@@ -591,6 +591,7 @@ func TestManyDistinctArguments(t *testing.T) {
 		// and what the first few gave in this process is what a fresh process gives for them
 		dir, derr := os.MkdirTemp("", "c15m")
 		if derr == nil {
+			t.Cleanup(func() { _ = os.RemoveAll(dir) })
 			for i := 0; i < 7; i++ {
 				ref, rerr := reference(fam.mk(i), dir, i)
 				if rerr != nil {
